@@ -692,6 +692,44 @@ Definition leaf_rt (vr : variant) (lf : leaf) (w : val) : option val :=
 Definition roundtrip (vr : variant) (lvs : list (leaf * val)) : option (list val) :=
   map_opt (fun lw => leaf_rt vr (fst lw) (snd lw)) lvs.
 
+(* ArgumentParser.dump(skip_default=True) taken by a parser that has a REQUIRED subcommand (_core.py dump): the defaults it
+   compares with come from get_defaults(), in which no subcommand is chosen, and ActionLink.strip_link_target_keys(defaults)
+   -> _ActionSubCommands.get_subcommands raises NSKeyError: there is no text at all.  (--print_config given inside the
+   subcommand is dumped by the subcommand's own parser: req_sub = false there.) *)
+Definition dump_crashes (req_sub : bool) (vr : variant) : bool := req_sub && vr_skip_default vr.
+(* the chosen subcommand's options live under the prefix `sub` ("fit."); if the dump holds none of them (the subcommand
+   has no options, or all are None under skip_none, or skip_default dropped them all) the text says `fit: {}` (or nothing),
+   which the parser does not take for a choice of the subcommand: the re-parse is rejected (required subcommand) or comes
+   back without the subcommand *)
+Fixpoint is_prefix (p s : str) : bool :=
+  match p, s with
+  | [], _ => true
+  | a :: p', b :: s' => N.eqb a b && is_prefix p' s'
+  | _ :: _, [] => false
+  end.
+(* the top-level parser's get_defaults() does not hold the defaults of its subcommands' options: skip_default leaves the
+   chosen subcommand's options as they are *)
+Definition no_skip_default (vr : variant) : variant :=
+  {| vr_fmt := vr_fmt vr; vr_skip_none := vr_skip_none vr; vr_skip_default := false; vr_comments := vr_comments vr |}.
+Definition leaf_var (sub : option str) (vr : variant) (lf : leaf) : variant :=
+  match sub with
+  | Some pre => if is_prefix pre (lf_key lf) then no_skip_default vr else vr
+  | None => vr
+  end.
+Definition sub_emptied (sub : option str) (vr : variant) (lvs : list (leaf * val)) : bool :=
+  match sub with
+  | None => false
+  | Some pre => forallb (fun lw => if is_prefix pre (lf_key (fst lw))
+                                   then match dump_entry (leaf_var sub vr (fst lw)) (fst lw) (snd lw) with
+                                        | EPresent _ => false
+                                        | _ => true
+                                        end
+                                   else true) lvs
+  end.
+Definition roundtrip_top (req_sub : bool) (sub : option str) (vr : variant) (lvs : list (leaf * val)) : option (list val) :=
+  if dump_crashes req_sub vr then None else if sub_emptied sub vr lvs then None
+  else map_opt (fun lw => leaf_rt (leaf_var sub vr (fst lw)) (fst lw) (snd lw)) lvs.
+
 End Conf.
 
 (* ---- strings the text layer is not claimed for -------------------------------------------------------------- *)
